@@ -142,13 +142,20 @@ class RoundTrip(UperBase):
         longs = ["zoo_leaf::ListIntAny", "zoo_leaf::ListBoolBig", "zoo_leaf::ListBoolMid", "zoo_leaf::ListBoolLb",
                  "zoo_leaf::Ia5Any", "zoo_leaf::Ia5Big", "zoo_leaf::NumericAny", "zoo_leaf::OctAny", "zoo_leaf::OctBig",
                  "zoo_leaf::OctMid", "zoo_leaf::BitsAny", "zoo_leaf::BitsBig", "zoo_leaf::Utf8Any", "zoo_leaf::OctLb"]
-        sizes = [16383, 16384, 16385, 20000, 32768, 49152, 65535, 65536, 65537] if tier == "quick" else \
-            [16383, 16384, 16385, 20000, 32767, 32768, 32769, 49152, 65535, 65536, 65537, 70000, 81920, 131072, 131073, 200000]
+        # the Lean mirror reads by absolute position on a List (quadratic in the value length): the
+        # quick tier keeps list/string values below 64K items; octet/bit strings (one L1 call) go further
+        small = [16383, 16384, 16385, 20000]
+        sizes = small if tier == "quick" else \
+            [16383, 16384, 16385, 20000, 32767, 32768, 32769, 49152, 65535, 65536, 65537, 70000]
+        blob_sizes = small + [32768, 49152, 65535, 65536, 65537, 81920] if tier == "quick" else \
+            small + [32768, 49152, 65535, 65536, 65537, 70000, 81920, 98304, 131072, 131073, 200000]
         for n in longs:
             if n not in self.desc:
                 continue
-            for sz in sizes:
-                node = ty_nodes(self.desc[n])[1]
+            node0 = ty_nodes(self.desc[n])[1]
+            is_blob = node0[0] in ("oct", "bits") or (node0[0] == "str" and node0[1] == "utf8")
+            for sz in (blob_sizes if is_blob else sizes):
+                node = node0
                 hi = opt(node[3]) if node[0] == "str" else opt(node[2])
                 if hi is not None and sz > hi:
                     continue
